@@ -163,7 +163,7 @@ VALUES = [_FS_A, _FS_B, frozenset([(1, 2), (2, 1)]), frozenset([(2, 1), (1, 2)])
           AFl(0), AFl(8), AFl(16), AFl.R, AFl.R | AFl.W, (AFl(8),), (AFl(16),),
           # named tuples: as the value of a property their class is the value's type; nested in a container they fall under A3
           Pos(1, 2), Size(1, 2), Pos(2, 1), Pos(_FS_A, 2), Pos(_FS_B, 2), (Pos(1, 2),), (Size(1, 2),), ((1, 2),),
-          frozenset([Pos(1, 2)]), frozenset([Size(1, 2), 3])]
+          (Pos(_FS_A, 2),), (Pos(_FS_B, 2),), frozenset([Pos(1, 2)]), frozenset([Size(1, 2), 3])]
 
 
 def make_universes(order: int):
